@@ -1,0 +1,24 @@
+//go:build verif
+
+// Contracts for the deductive verifier in /verif (govc). This file contains no code: with the
+// build tag off it is not part of the package, with it on it adds nothing to the build.
+package keeper
+
+//@ import sdk "github.com/cosmos/cosmos-sdk/types"
+//@ import big "math/big"
+//@ import common "github.com/ethereum/go-ethereum/common"
+//@ import corevm "github.com/ethereum/go-ethereum/core/vm"
+//@ import cpctypes "github.com/EscanBE/evermint/v12/x/cpc/types"
+
+//@ func (e erc20CustomPrecompiledContractRoName) ReadOnly() bool
+//@   modifies nothing
+//@   ensures[C12.ro_flag] result == true
+//@   panics never
+//@ func (e erc20CustomPrecompiledContractRoName) RequireGas() uint64
+//@   modifies nothing
+//@   ensures[C12.gas] result == 0
+//@   panics never
+//@ func (e erc20CustomPrecompiledContractRoName) Method4BytesSignatures() []byte
+//@   modifies nothing
+//@   ensures[C12.sig] len(result) == 4 && result[0] == 0x06 && result[1] == 0xfd && result[2] == 0xde && result[3] == 0x03
+//@   panics never
